@@ -174,13 +174,18 @@ func doHorizontalPlanesOverlap(a Quad, b Quad) bool {
 }
 
 func calculateNormal(c Vector3f, e Vector3f) Vector3f {
-	pointA := Add(c, Vector3f{e.x, e.y, 0})
-	pointB := Add(c, Vector3f{0, e.y, e.z})
-	vectorA := Sub(pointA, c)
-	vectorB := Sub(pointB, c)
-	normal := Cross(vectorB, vectorA)
-	normal.NormalizeInPlace()
-	return normal
+	// The normal of the plane spanned by the two edges (e.x, e.y, 0) and
+	// (0, e.y, e.z). It is computed from the half-extents themselves, in
+	// float64: adding them to the center and subtracting it again loses
+	// half-extents that are small against the center, and their float32
+	// products underflow for very small quads. Both gave a zero normal, that
+	// is a stored plane that no ray ever hits.
+	ex, ey, ez := float64(e.x), float64(e.y), float64(e.z)
+	nx, ny, nz := -ez*ey, ez*ex, -ey*ex
+	if length := math.Sqrt(nx*nx + ny*ny + nz*nz); length != 0 {
+		nx, ny, nz = nx/length, ny/length, nz/length
+	}
+	return Vector3f{float32(nx), float32(ny), float32(nz)}
 }
 
 type Ray struct {
